@@ -245,3 +245,108 @@ Proof.
 Qed.
 
 End FH.
+
+(* ---- a string operation (any macro that does not throw by itself) under a fault at allocation number k ---- *)
+Section FT.
+Variable L : nat.
+Hypothesis Lpos : 1 <= L.
+Notation Inv := (Inv L).
+
+Lemma fault_spec_other st s op x : ~ In x (targets op) -> fault_spec L st s op x = s x.
+Proof.
+  intros N. destruct op; cbn [fault_spec]; try reflexivity.
+  destruct (objs st o) as [r|]; [|reflexivity]. destruct (Nat.leb L (m_size r)); [|reflexivity].
+  apply upd_other. intros ->. apply N. cbn. auto.
+Qed.
+
+(* destroying the result object a failed operation left half-built *)
+Lemma destroy_if_live_frame : forall l st, Inv st ->
+  exists st', destroy_if_live L l st = (Ok tt, st') /\ Inv st' /\
+    (forall o, In o l -> objs st' o = None) /\
+    (forall o, ~ In o l -> objs st' o = objs st o) /\
+    (forall o r, ~ In o l -> objs st o = Some r -> contents st' r = contents st r).
+Proof.
+  induction l as [|a l IH]; intros st I.
+  - exists st. cbn. split; [reflexivity|]. split; [exact I|]. split; [intros o []|]. split; auto.
+  - cbn [destroy_if_live]. destruct (objs st a) as [ra|] eqn:Ha.
+    + assert (Hl : objs st a <> None) by congruence.
+      destruct (dtor_ok L Lpos st (sstore_of st) a I (rel_sstore_of st) Hl) as (st1 & E1 & I1 & R1 & F1).
+      rewrite E1. destruct (IH st1 I1) as (st2 & E2 & I2 & D2 & F2 & C2).
+      exists st2. split; [exact E2|]. split; [exact I2|].
+      assert (K1 : objs st1 a = None).
+      { specialize (R1 a). cbn [spec_bop] in R1. unfold sset in R1. rewrite upd_same in R1.
+        destruct (objs st1 a); [contradiction|reflexivity]. }
+      split; [|split].
+      * intros o [<-|Hin]; [|apply D2; exact Hin].
+        destruct (in_dec Nat.eq_dec a l) as [Hi|Hn]; [apply D2; exact Hi|rewrite F2 by exact Hn; exact K1].
+      * intros o Hn. rewrite F2 by (intros Hi; apply Hn; right; exact Hi).
+        apply F1. intros [E|[]]. apply Hn. left. exact E.
+      * intros o r Hn Ho.
+        assert (No : ~ In o (targets (BDel a))) by (cbn; intros [E|[]]; apply Hn; left; exact E).
+        destruct (step_independent L Lpos st (BDel a) o r I Hl No Ho) as (st1' & E1' & _ & Ho1 & C1).
+        cbn [run_bop] in E1'. rewrite E1 in E1'. injection E1' as <-.
+        rewrite (C2 o r (fun Hi => Hn (or_intror Hi)) Ho1). exact C1.
+    + destruct (IH st I) as (st2 & E2 & I2 & D2 & F2 & C2).
+      exists st2. split; [exact E2|]. split; [exact I2|]. split; [|split].
+      * intros o [<-|Hin]; [|apply D2; exact Hin].
+        destruct (in_dec Nat.eq_dec a l) as [Hi|Hn]; [apply D2; exact Hi|rewrite F2 by exact Hn; exact Ha].
+      * intros o Hn. apply F2. intros Hi. apply Hn. right. exact Hi.
+      * intros o r Hn Ho. apply (C2 o r); [intros Hi; apply Hn; right; exact Hi|exact Ho].
+Qed.
+
+Lemma under_construction_touched t x : In x (under_construction t) -> In x (touched t).
+Proof. destruct t; cbn; tauto. Qed.
+
+Theorem fault_top_any st s t k :
+  Inv st -> Rel st s -> top_wf s t -> snd (expand t) = None ->
+  exists stf, run_top L t st = (Ok tt, stf) /\ Inv stf /\ Rel stf (spec_top s t) /\ nb st <= nb stf /\
+    (nb stf - nb st <= k ->
+       run_top L t (with_fail st (Some k)) = (Ok tt, with_fail stf (Some (k - (nb stf - nb st))))) /\
+    (k < nb stf - nb st ->
+       exists st', run_top L t (with_fail st (Some k)) = (Throw BadAlloc, st') /\ Inv st' /\
+         (forall x r, user_slot x -> ~ In x (touched t) -> objs st x = Some r ->
+                      objs st' x = Some r /\ contents st' r = contents st r) /\
+         (forall j, j < scratch_slots -> objs st' (scratch_base + j) = None) /\
+         (forall x, In x (under_construction t) -> objs st' x = None)).
+Proof.
+  intros I R W NT. pose proof (expand_wf L Lpos s t W NT) as WH.
+  unfold run_top, spec_top. destruct (expand t) as (body, thr) eqn:E. cbn [fst snd] in NT, WH. subst thr.
+  rewrite !(run_body_eq L).
+  destruct (fault_history L Lpos body st s k I R WH) as (stf & Ef & If & Rf & Lef & Kf & Ff).
+  exists stf. rewrite Ef. split; [reflexivity|]. split; [exact If|]. split; [exact Rf|]. split; [exact Lef|]. split.
+  - intros Hk. rewrite (run_body_eq L body (with_fail st (Some k))), (Kf Hk). reflexivity.
+  - intros Hk. rewrite (run_body_eq L body (with_fail st (Some k))). destruct (Ff Hk) as (st'' & E'' & pre & op & post & stp & Hb & Hpre & Ip & Rp & Wp & Ap & Hf).
+    rewrite E''.
+    (* the state in which the allocation failed *)
+    destruct (fault_step L Lpos stp (sstore_of stp) op Ip (rel_sstore_of stp) Wp Ap) as (st0 & E0 & I0 & R0 & F0).
+    rewrite Hf in E0. injection E0 as <-.
+    (* stack unwinding *)
+    unfold unwind. destruct (destroy_all_frame L Lpos scratch_slots scratch_base st'' I0) as (st2 & E2 & I2 & D2 & F2 & C2).
+    rewrite E2.
+    destruct (destroy_if_live_frame (under_construction t) st2 I2) as (st3 & E3 & I3 & D3 & F3 & C3).
+    rewrite E3. exists st3. split; [reflexivity|]. split; [exact I3|]. split; [|split].
+    + (* everything the operation does not name *)
+      intros x r Ux Nt Hx.
+      assert (U : untouched x body).
+      { pose proof (untouched_expand L Lpos x t Ux Nt) as U. rewrite E in U. exact U. }
+      assert (Upre : untouched x pre) by (intros o Hin; apply U; rewrite Hb; apply in_or_app; left; exact Hin).
+      assert (Nop : ~ In x (targets op)) by (apply U; rewrite Hb; apply in_or_app; right; left; reflexivity).
+      assert (WHpre : wf_history s pre) by (rewrite Hb in WH; apply wf_history_app in WH; tauto).
+      destruct (history_independent L Lpos pre st s x r I R WHpre Upre Hx) as (stp' & Ep' & _ & _ & Hxp & Cp).
+      rewrite Hpre in Ep'. injection Ep' as <-.
+      assert (Hx0 : objs st'' x = Some r) by (rewrite (F0 x Nop); exact Hxp).
+      assert (C0 : contents st'' r = contents stp r).
+      { specialize (R0 x). rewrite Hx0, (fault_spec_other stp (sstore_of stp) op x Nop) in R0.
+        unfold sstore_of in R0. rewrite Hxp in R0. exact R0. }
+      assert (Ns : ~ (scratch_base <= x < scratch_base + scratch_slots)) by (unfold user_slot in Ux; lia).
+      assert (Hx2 : objs st2 x = Some r) by (rewrite (F2 x Ns); exact Hx0).
+      assert (Nu : ~ In x (under_construction t)) by (intros Hi; apply Nt; apply under_construction_touched; exact Hi).
+      split; [rewrite (F3 x Nu); exact Hx2|].
+      rewrite (C3 x r Nu Hx2), (C2 x r Ns Hx0), C0. exact Cp.
+    + intros j Hj. destruct (in_dec Nat.eq_dec (scratch_base + j) (under_construction t)) as [Hi|Hn].
+      * apply D3. exact Hi.
+      * rewrite (F3 _ Hn). apply D2. lia.
+    + exact D3.
+Qed.
+
+End FT.
